@@ -106,7 +106,7 @@ def run(ctx):
     stats = {}
     try:
         # ---- python
-        r = run_cli("python", out, tst)
+        r = run_cli("python", out, tst, hashseed=str(ctx.seed % 7))
         if r.returncode != 0:
             res.add(Violation(PROP, "plugin-fails", "python", "python plugin exits %d: %s" % (r.returncode, (r.stderr or r.stdout)[-300:]),
                               {"engine": "BISIM", "plugin": "python", "input": None}))
@@ -126,7 +126,7 @@ def run(ctx):
         # ---- rust (own fresh directory: histories of the output directory are C16's subject)
         rm(out)
         out = scratch("lspverif-c05r-")
-        r = run_cli("rust", out, tst)
+        r = run_cli("rust", out, tst, hashseed=str(1 + ctx.seed % 5))
         if r.returncode != 0:
             res.add(Violation(PROP, "plugin-fails", "rust", "rust plugin exits %d: %s" % (r.returncode, (r.stderr or r.stdout)[-300:]),
                               {"engine": "BISIM", "plugin": "rust", "input": None}))
